@@ -184,8 +184,17 @@ def huge_case(draw):
             "eps": draw(st.sampled_from([1e-12, 1e-3]))}
 
 
+@st.composite
+def wass_large_case(draw):
+    gs = draw(objs.gemini_spec(bases=("wasserstein",), metric_forms=("named", "randdist")))
+    return {"g": gs, "p": draw(gens.p_spec(n_min=40, n_max=150, k_min=2, k_max=6, scales=[0.5, 2.0, 8.0])),
+            "x": draw(gens.x_spec(d_max=3, kinds=("normal", "grid"))), "dseed": draw(gens.seeds), "mode": "random",
+            "eps": draw(st.sampled_from([1e-12, 1e-3]))}
+
+
 def subs():
     return [
+        Sub("wasserstein_large", wass_large_case(), oracle_deriv, 60, 1500, "Wasserstein on 40-150 samples, up to 6 clusters"),
         Sub("huge_shapes", huge_case(), oracle_deriv, 24, 300, "n beyond 1024 rows / n*K^2 beyond 2^20 (blocked code paths)"),
         Sub("logit_random", rand_case(), oracle_deriv, 6000, 120000, "4 random simplex directions per case"),
         Sub("logit_coords", coord_case(), oracle_deriv, 1500, 30000, "all coordinate directions, n<=4, K<=3"),
